@@ -142,3 +142,31 @@ def _da_case(spec, model):
             if r['name'] == spec['name']:
                 return {'confirmed': not r['ok'], 'observed': r['detail']}
     return {'confirmed': False, 'error': 'case not found'}
+
+
+@replayer('c14.branch')
+def _branch(spec, model):
+    """alpha-s with the requested branch / reference branch: the reported alpha curve is n_ref(p) / n_ref(reducing pressure), both
+    read on the reference branch"""
+    import pygaps
+    import pygaps.characterisation as pgc
+    pygaps.logger.disabled = True
+    if spec.get('entry') != 'alpha_s':
+        return {'confirmed': False, 'error': 'no native replay for this entry point'}
+    up = numpy.linspace(0.02, 0.9, 16)
+    pp = list(up) + list(up[::-1][1:])
+    mk = lambda f: pygaps.PointIsotherm(pressure=pp, loading=[f * 6 * 40 * x / (1 + 40 * x) / (1 - 0.6 * x) * (1.0 if k < 16 else 1.15) for k, x in enumerate(pp)],
+                                        branch=[0] * 16 + [1] * 15, material='pgv_c14', adsorbate='nitrogen', temperature=77.355, pressure_mode='relative',
+                                        pressure_unit=None, loading_basis='molar', loading_unit='mmol', material_basis='mass', material_unit='g', temperature_unit='K')
+    iso, ref = mk(1.0), mk(0.4)
+    b, br = spec['branch'], spec['branch_ref']
+    try:
+        res = pgc.alpha_s(iso, ref, reference_area='BET', branch=b, branch_ref=br)
+    except Exception as exc:
+        return {'confirmed': False, 'observed': f"{type(exc).__name__}: {exc}"[:160]}
+    ps = iso.pressure(branch=b)
+    want = numpy.asarray(ref.loading_at(ps, branch=br, pressure_mode='relative', loading_basis='molar', loading_unit='mmol'), dtype=float) / \
+        float(ref.loading_at(0.4, branch=br, pressure_mode='relative', loading_basis='molar', loading_unit='mmol'))
+    got = numpy.asarray(res['alpha_curve'], dtype=float)
+    ok = got.shape == want.shape and numpy.allclose(got, want, rtol=1e-9)
+    return {'confirmed': not ok, 'observed': {'alpha_curve': [float(v) for v in got[:4]]}, 'expected': {'alpha_curve': [float(v) for v in want[:4]]}}
